@@ -20,6 +20,9 @@ class HippoLLSDBaseFormatter(base_llsd.base.LLSDBaseFormatter):
     def __init__(self):
         super().__init__()
         self.type_map[UUID] = self.UUID
+        # bytes subclass the message deserializer uses for "may or may not be text" fields,
+        # without this it'd get picked up as a generic iterable and written as an array of ints.
+        self.type_map[JankStringyBytes] = self.BINARY
         self.type_map[Vector2] = self.TUPLECOORD
         self.type_map[Vector3] = self.TUPLECOORD
         self.type_map[Vector4] = self.TUPLECOORD
